@@ -5,6 +5,8 @@ use std::io::{BufRead, Write};
 mod util;
 mod keydir;
 mod engine;
+#[cfg(walrus_verif_conc)]
+mod conc;
 mod clean;
 
 fn main() {
@@ -40,6 +42,18 @@ fn main() {
         "seg" => {
             drop(out);
             engine::seg_main(&args[2..]);
+            return;
+        }
+        #[cfg(walrus_verif_conc)]
+        "conc" => {
+            drop(out);
+            conc::conc_main(args.get(2).expect("conc <base-dir>"));
+            return;
+        }
+        #[cfg(walrus_verif_conc)]
+        "conc1" => {
+            drop(out);
+            conc::conc1_main(args.get(2).expect("conc1 <dir>"));
             return;
         }
         _ => {
